@@ -19,7 +19,7 @@ PROPS = {
         "thorough_families": [{"name": "toy"}],
         "assumptions": [
             "theorems are about the Gallina model (Model/Lmots, Lms, Derive, Hss, Codec), for every hash function H with |H(x)| = n",
-            "model == code by differential execution of keygen / sign / verify with the Gallina SHA-256 (SHAKE variants: implementation-only oracle; trees of height 10 and 15 and 2^20-signature keys: with the toy hasher harness/src/toy.rs = Exec/Toy.v, thorough tier here, quick tier under C08)",
+            "model == code by differential execution of keygen / sign / verify with the Gallina SHA-256 and SHAKE256 (Exec/Sha256.v, Exec/Keccak.v; trees of height 10 and 15 and 2^20-signature keys: with the toy hasher harness/src/toy.rs = Exec/Toy.v, thorough tier here, quick tier under C08)",
         ],
     },
     "C04": {
@@ -29,9 +29,9 @@ PROPS = {
         ],
     },
     "C11": {
-        "families": [{"name": "c11"}],
+        "families": [{"name": "c11"}, {"name": "c10", "judge": "no_panic"}],
         "assumptions": [
-            "totality theorems are about the Gallina model (Panic = the Rust code unwinds); the aux-buffer inputs are covered under C10",
+            "totality theorems are about the Gallina model (Panic = the Rust code unwinds); the aux-buffer inputs are the c10 family, judged here for absence of panics (its transparency oracles belong to C10)",
         ],
     },
     "C06": {
@@ -41,7 +41,7 @@ PROPS = {
         ],
     },
     "C03": {
-        "families": [{"name": "hist"}],
+        "families": [{"name": "hist"}, {"name": "c13"}],
         "assumptions": [
             "history theorems are about Model/History.run over Model/SignCore; each step of the implementation's histories is compared with the model, and the released set (level, tree identifier, leaf) -> content is rebuilt from the signatures by an independent parser",
             "distinct derivation paths giving distinct 16-byte tree identifiers is a collision assumption on H; the theorem is stated on paths",
@@ -83,7 +83,7 @@ PROPS = {
         "byte_exact": ["sign", "try_sign", "keygen", "hash"],
         "assumptions": [
             "Spec/HashSigs.v is a transcription of the reference's derivation and cannot be validated against the hash-sigs binary offline (trusted)",
-            "finalize = first n bytes of SHA-256 / of the SHAKE256 XOF stream is a model definition, tied to src/hasher/*.rs by the hasher-unit comparison with the sha2 / sha3 crates; the Gallina SHA-256 is compared with the library's on the same inputs",
+            "finalize = first n bytes of SHA-256 / of the SHAKE256 XOF stream is a model definition, tied to src/hasher/*.rs by the hasher-unit comparison with the sha2 / sha3 crates; the Gallina SHA-256 and SHAKE256 are compared with the library's hashers on the same inputs",
         ],
     },
     "C10": {
